@@ -31,22 +31,35 @@ theorem syntax_error_position (src : Src) (off : Nat) (h : off ≤ src.length) :
 
 /-- `file.Position` (which locates every run-time stack frame) agrees with §7.3 on every source and every idx:
     all four line terminators, <CR><LF> once; idx outside the source ↦ nil on both sides. -/
-theorem position_spec (src : Src) (idx : Int) :
-    filePosition src 1 idx = Spec.positionAt src (idx - 1) := by
+theorem position_spec_base (src : Src) (base idx : Int) :
+    filePosition src base idx = Spec.positionAt src (idx - base) := by
   unfold filePosition Spec.positionAt
-  by_cases hr : 0 ≤ idx - 1 ∧ idx - 1 < (src.length : Int)
-  · have hn : ¬ (idx - 1 ≥ (src.length : Int) ∨ idx - 1 < 0) := by omega
+  by_cases hr : 0 ≤ idx - base ∧ idx - base < (src.length : Int)
+  · have hn : ¬ (idx - base ≥ (src.length : Int) ∨ idx - base < 0) := by omega
     simp only [hn, hr, if_false]
-    have hlen : (src.take (idx - 1).toNat).length = (idx - 1).toNat := by
+    have hlen : (src.take (idx - base).toNat).length = (idx - base).toNat := by
       simp [List.length_take]; omega
-    have := fp_sim (src.take (idx - 1).toNat) 0 0 (-1) 0 (by omega) (by omega) (by omega) (by omega)
+    have := fp_sim (src.take (idx - base).toNat) 0 0 (-1) 0 (by omega) (by omega) (by omega) (by omega)
     have hc : colAt (0 + 0) (-1) = 1 := by decide
     rw [hc] at this
     simp only [Nat.zero_add, hlen] at this
     simp only [Spec.position, ← this, finF, if_true]
     rfl
-  · have hn : (idx - 1 ≥ (src.length : Int) ∨ idx - 1 < 0) := by omega
+  · have hn : (idx - base ≥ (src.length : Int) ∨ idx - base < 0) := by omega
     simp only [hn, hr, if_true, if_false]
+
+theorem position_spec (src : Src) (idx : Int) :
+    filePosition src 1 idx = Spec.positionAt src (idx - 1) := position_spec_base src 1 idx
+
+/-- `(*FileSet).Position`: the file that contains idx, and the §7.3 position of idx in it – for every set of
+    files and every idx -/
+theorem fileset_position_spec (fs : List (Int × Src)) (idx : Int) :
+    fileSetPosition fs idx = Spec.fileSetPosition fs idx := by
+  induction fs with
+  | nil => rfl
+  | cons f r ih =>
+    obtain ⟨base, src⟩ := f
+    simp only [fileSetPosition, Spec.fileSetPosition, position_spec_base, ih]
 
 /-- the two position functions of otto now agree with each other (run-time frames vs. syntax errors) -/
 theorem positions_agree (src : Src) (off : Nat) (h : off < src.length) :
